@@ -384,6 +384,16 @@ def _one(ctx, spec, states, n, T, seed, run, profile) -> bool:
     # ------------------------------------------------------------- values
     st_times = res.get_result_times("state")
     interior = sum(1 for t in st_times if 0.0 < t < 1.0)
+    # The solver returns un-normalised states; with its default tolerances the
+    # norm drifts by about 9e-6 per radian of accumulated phase (measured on the
+    # unchanged tree: 2 atoms, U = 1e1..1e4 rad/us, 0.3 and 1 us). The budget
+    # below is that slope with a 4x margin, on a bound of the energy scale.
+    try:
+        e_bound = max(float(np.abs(legacy.get_hamiltonian(int(tt), noiseless=True).full()).sum(axis=1).max()) for tt in np.linspace(0, max(T - 1, 0), 5))
+    except Exception:  # noqa: BLE001
+        e_bound = 0.0
+    trace_tol = 5e-3 + 4e-5 * e_bound * T * 1e-3
+    stats["max_trace_tol_e6"] = max(stats["max_trace_tol_e6"], int(trace_tol * 1e6))
     mixed = False
     for t in st_times:
         qs = res.get_result("state", t)
@@ -392,7 +402,7 @@ def _one(ctx, spec, states, n, T, seed, run, profile) -> bool:
         tr = np.trace(rho).real
         stats["max_norm_error_e6"] = max(stats["max_norm_error_e6"], int(abs(tr - 1.0) * 1e6))
         # ---- C11 physicality
-        if abs(tr - 1.0) > 5e-3:
+        if abs(tr - 1.0) > trace_tol:
             ctx.viol("C11/trace", 0, f"state at t={t} has trace/norm {tr!r} (noise {spec['noise']})")
             return False
         if np.abs(rho - rho.conj().T).max() > 1e-9:
